@@ -191,13 +191,18 @@ class Program:
                 m = Module(name, p, rel, tree, raw.decode("utf-8", "replace"))
                 self.modules[name] = m
         if self.form == "nf":
-            from .normalize import census, normalise
-            cnt = census([m.tree for m in self.modules.values()])
+            from .normalize import census, normalise, prepare, drop_inlined_helpers, _renumber
+            trees = [m.tree for m in self.modules.values()]
+            cnt = census(trees)
+            prepare(trees, cnt)
             tot = [0, 0, 0]
             for m in self.modules.values():
                 r = normalise(m.tree, cnt)
                 tot = [a + b for a, b in zip(tot, r)]
-            self.nf_stats = {"helper_calls_inlined": tot[0], "aliases_folded": tot[1], "enumerate_rewritten": tot[2]}
+            dropped = drop_inlined_helpers(trees)
+            for t in trees:
+                _renumber(t)
+            self.nf_stats = {"helper_calls_inlined": tot[0], "aliases_folded": tot[1], "loops_rewritten": tot[2], "helpers_removed": len(dropped)}
         for m in self.modules.values():
             canon_single_use_tests(m.tree)
         self.digest = h.hexdigest() + ("" if self.form == "raw" else "+" + self.form)
